@@ -5,7 +5,7 @@ ROOT = os.path.dirname(os.path.dirname(os.path.abspath(__file__)))
 
 TRUSTED = ("Trusted: clang 14 TSan instrumentation pass (routes every atomic and plain access to the simulator), "
            "the simulator runtime and oracles in /verif, libstdc++/abseil/protobuf/glibc as uninstrumented stubs executing atomically between scheduling points. "
-           "Memory model explored: SC interleavings + per-thread store buffers (TSO/PSO) + happens-before check on registered payload; no load buffering, no weak-CAS spurious failure. "
+           "Memory model explored: SC interleavings + per-thread store buffers (TSO/PSO) + happens-before check on registered payload; no load buffering, no weak-CAS spurious failure; scheduling points before every atomic/fence/intercepted call, after publishing operations in 40% of the runs, and at plain accesses to registered ranges. "
            "Sampling, not exhaustive.")
 
 CLAIMED = {
@@ -18,11 +18,11 @@ CLAIMED = {
 }
 
 CLAIMED["C13"] = dict(
-    text="Real coroutines (Task, Cancellable<Task>, Future awaitable, coroutine::Futex) on real ThreadPoolExecutor / AlwaysUseNewThreadExecutor running under the simulator; seeded search over interleavings of wake_one/wake_all/cancel/new waiters (cancel and wake released at the same instant a waiter is known suspended), completion vs. registration, completion vs. cancellation; oracles: resume ledger per suspension (exactly once, on the bound executor), wake return values vs. resumed waiters, wake_one/wake_all-missed rules stated in event order, optional empty iff cancel won, DepositBox slot balance (no leaked per-wait bookkeeping), simulated-heap use-after-free detection on coroutine frames. Found three genuine defects (fixed, see known_findings.json).",
+    text="Real coroutines (Task, Cancellable<Task>, Future awaitable, coroutine::Futex) on real ThreadPoolExecutor / AlwaysUseNewThreadExecutor running under the simulator; seeded search over interleavings of wake_one/wake_all/cancel/new waiters (cancel and wake released at the same instant a waiter is known suspended), completion vs. registration, completion vs. cancellation; oracles: resume ledger per suspension (exactly once, on the bound executor), wake return values vs. resumed waiters, wake_one/wake_all-missed rules stated in event order, optional empty iff cancel won, DepositBox slot balance (no leaked per-wait bookkeeping), simulated-heap use-after-free detection on coroutine frames. Scheduling points also after publishing operations (store/RMW/unlock) so that use-after-publish is reachable. Found five genuine defects (fixed, see known_findings.json).",
     ref="§3 C13", technique="deterministic simulation: seeded schedule search over real coroutines/executors, resume ledger, slot-balance and heap oracles")
 
 CLAIMED["C07"] = dict(
-    text="Real ThreadPoolExecutor (1-3 workers, local queues, work stealing, balance thread), AlwaysUseNewThreadExecutor, InplaceExecutor and a harness executor that refuses drawn submissions, all running under the simulator; external submitters, tasks that spawn tasks (placement local/global predicted through the pool's own rule), plain and coroutine execute/submit, stop() after or while submitters run, destructor instead of stop. Oracles: run-count ledger (exactly once, never after stop returned, never when refused), is_running_in, future ready with the right value at stop()/join return, refused submissions reported (invalid future / non-zero), coroutine frame destroyed exactly once. Found one genuine defect (fixed).",
+    text="Real ThreadPoolExecutor (1-3 workers, and a wide shape with 130-138 workers whose local queues span two storage blocks; local queues, work stealing, balance thread; which waiter a wake-up picks is a scheduler decision), AlwaysUseNewThreadExecutor, InplaceExecutor and a harness executor that refuses drawn submissions, all running under the simulator; external submitters, tasks that spawn tasks (placement local/global predicted through the pool's own rule), plain and coroutine execute/submit, stop() after or while submitters run, destructor instead of stop. Oracles: run-count ledger (exactly once, never after stop returned, never when refused), is_running_in, future ready with the right value at stop()/join return, refused submissions reported (invalid future / non-zero), coroutine frame destroyed exactly once. Found one genuine defect (fixed).",
     ref="§3 C07", technique="deterministic simulation: seeded schedule search over the real thread pool, run ledger and future-readiness oracle, executor fault injection")
 CLAIMED["C09"] = dict(
     text="The client protocol the property describes on the real Epoch (readers in thread-local or Accessor regions, nested, handed between threads; writers unlink, tick, poll low_water_mark, reclaim) explored with store buffering always on (lazy commits), which is what exposes a weakened or missing seq_cst fence in lock() although the host is x86; oracle: at the moment low_water_mark reaches a tick no reader still inside the region in which it obtained the unlinked object may hold it; reads of reclaimed objects; released/unlocked accessors must not hold the mark back.",
@@ -45,7 +45,7 @@ CLAIMED["C04"] = dict(
     text="Real ConcurrentVector (static and dynamic block sizes incl. 1) with 2-4 threads racing for the same new blocks, kept snapshots, gc(), and a virtual clock started near 64 s unit boundaries and near the 16-bit timestamp wrap, jumped by 0-200 s between rounds; a directed mode stalls one thread for > 64 s between reading the clock and publishing its retire node. Oracles: index->address map, constructor/destructor ledger by address (speculative blocks of CAS losers included), cooling period measured from a watchpoint on the block table to the simulated heap's free time, use-after-free through kept snapshots, heap balance. One genuine defect found (fixed).",
     ref="§3 C04", technique="deterministic simulation: seeded schedule + virtual clock history search (jumps, wrap), ledger and cooling-period oracle")
 CLAIMED["C05"] = dict(
-    text="Random acyclic graphs built through the real GraphBuilder (conditional and essential dependencies, fan-in/out, trivial vertices, asynchronously completing processors), run on the inplace executor, the real thread-pool executor and a thread-per-vertex executor under the simulator, inputs injected before or concurrently with run(), 1-3 run/reset cycles; oracle = a sequential demand-driven reference interpreter (values, emptiness, error code, needed set), at-most-once and dependencies-resolved checks inside the processor, publish-once, wait() vs in-flight vertices, closure vertex count, HB race detector on data payload, reset state. One genuine defect is listed as known finding (vertex started on an already flushed closure after a late external injection).",
+    text="Random acyclic graphs built through the real GraphBuilder (conditional and essential dependencies, fan-in up to 8 with pending-then-ready dependency lists, fan-out, trivial vertices, asynchronously completing processors), run on the inplace executor, the real thread-pool executor and a thread-per-vertex executor under the simulator, inputs injected before or concurrently with run(), 1-3 run/reset cycles; oracle = a sequential demand-driven reference interpreter (values, emptiness, error code, needed set), at-most-once and dependencies-resolved checks inside the processor, publish-once, wait() vs in-flight vertices, closure vertex count, HB race detector on data payload, reset state. One genuine defect is listed as known finding (vertex started on an already flushed closure after a late external injection).",
     ref="§3 C05", technique="deterministic simulation: seeded graph/schedule search against a sequential reference interpreter")
 CLAIMED["C06"] = dict(
     text="Exclusive / Shared / Swiss monotonic resources on a recording page allocator (page sizes 128-4096, LIFO-recycling or always-fresh) and a recording upstream resource; request histories with sizes and alignments around every boundary, register_destructor, contains, release and moves at quiescent points, waves of worker threads that exit so thread-local slots are recycled (shared variants under the scheduler; the exclusive variant has no schedule and is the 1-thread case of the same ledger). Oracle: alignment, containment in owned memory, interval map (no overlap), per-block patterns re-verified, destructors/pages/oversize blocks returned exactly once with original size and alignment, accounting zero after release. Four genuine defects found (fixed).",
@@ -60,13 +60,13 @@ CLAIMED["C15"] = dict(
     text="Real ConcurrentTransientTopic with 1-3 publishers (single and batch, batches crossing the 128-slot block boundary), 1-3 consumers subscribed before/during/after publication with varying batch sizes, close() racing with the last wake-up, 1-3 publish/close/clear cycles; store buffering and futex spurious wakes. Oracle: every consumer's output is exactly the published index sequence with fully visible content (HB race detector on slot payload), publishers never share a slot, end marker only after everything was delivered, consumers terminate (deadlock verdict), clear resets.",
     ref="§3 C15", technique="deterministic simulation: seeded schedule + store-buffer + futex fault search, per-consumer sequence oracle")
 CLAIMED["C17"] = dict(
-    text="Stacks of Counting / Batch / Cached page allocators (and PageHeap) over a recording upstream, capacities and batch sizes 1-4 with batches larger than the cache so both compensating paths of the underlying queue run, pages handed between threads; ObjectPool in strict and auto-create mode. Oracle: ownership map page -> {upstream, cached, caller}, per-caller patterns and HB detector on page memory, conservation equation at every quiescent point, destruction returns the cache, counting allocator equals pages held; pool: never more than n outstanding, exclusive objects, blocked pop resumes (deadlock verdict), recycler once per return, overflow destroyed. One genuine defect found (fixed).",
+    text="Stacks of Counting / Batch / Cached page allocators (and PageHeap) over a recording upstream, capacities and batch sizes 1-4 with batches larger than the cache so both compensating paths of the underlying queue run, pages handed between threads, a burn-in shape that brings the 16-bit slot versions of the cache queue to the wrap; ObjectPool in strict and auto-create mode. Oracle: ownership map page -> {upstream, cached, caller}, per-caller patterns and HB detector on page memory, conservation equation at every quiescent point, destruction returns the cache, counting allocator equals pages held; pool: never more than n outstanding, exclusive objects, blocked pop resumes (deadlock verdict), recycler once per return, overflow destroyed. One genuine defect found (fixed).",
     ref="§3 C17", technique="deterministic simulation: seeded schedule search, ownership-map and conservation oracle")
 CLAIMED["C18"] = dict(
     text="Same hash harness in phase mode: histories of structural operations executed alone (construct default/n, clear, reserve, rehash, copy, move, swap, iterate, size, find) separated by batches of emplace/find run by 1-3 threads under the scheduler (so the chain shape is schedule dependent), compared after every phase with std::map/std::set: size, iteration exactly once, find of present and absent keys, first-inserted mapped values; both build flavours. Two genuine defects found (fixed).",
     ref="§3 C18", technique="deterministic simulation: seeded phase-history + schedule search against a std reference container")
 CLAIMED["C19"] = dict(
-    text="Real ConcurrentAdder/Summer/Maxer/Miner and (Compact)EnumerableThreadLocal over generations of threads that count and exit (slots of dead threads reused), instances created, destroyed and moved so instance ids and cache-line offsets are recycled, a reader concurrent with writers with scheduling points on the single-writer plain slots. Oracle: exact totals at quiescence incl. dead threads, fresh counters read zero, moves keep totals, concurrent reads equal one prefix per writer (happens-before judged), local() stable/distinct, for_each / for_each_alive sets. One genuine defect fixed, two listed as known findings (maxer/miner concurrent first-count read; numeric-limit sentinel).",
+    text="Real ConcurrentAdder/Summer/Maxer/Miner and (Compact)EnumerableThreadLocal over generations of threads that count and exit (slots of dead threads reused), instances created, destroyed and moved so instance ids and cache-line offsets are recycled (at quiescent points by the main thread and concurrently by workers on private instances), a reader concurrent with writers with scheduling points on the single-writer plain slots. Oracle: exact totals at quiescence incl. dead threads, fresh counters read zero, moves keep totals, concurrent reads equal one prefix per writer (happens-before judged), local() stable/distinct, for_each / for_each_alive sets. One genuine defect fixed, two listed as known findings (maxer/miner concurrent first-count read; numeric-limit sentinel).",
     ref="§3 C19", technique="deterministic simulation: seeded thread-generation history + schedule search with plain-access preemption, exact-total oracle")
 CLAIMED["C20"] = dict(
     text="Real LogStreamBuffer / LogEntry / AsyncFileAppender (and AsyncLogStream) on a recording page allocator (page sizes 128-4096) with entry lengths around the inline page capacity and page-table boundaries, 1-3 logging threads, queue capacity 1-8, two file objects one of which rotates its fd, discard, close() after or concurrently with the last writes; writer back-off in virtual time, writev captured in memory. Oracle: scatter list == streamed bytes with every page exactly once; sinks hold each entry once, contiguous, per thread in order, on the right file; page ledger zero, nothing returned early or twice (HB detector + simulated heap). Write-fault mode checks page conservation and termination only. Two genuine defects found (fixed).",
